@@ -280,7 +280,7 @@ def step (s : DSt) (ws : List String) : DSt × String :=
   | ["cyield", name] =>
     -- a further schedule point of the commit in flight at which vs.mutex is not held: nothing is read there
     match s.pend, name.toNat? with
-    | some (n, _, _), some n' => if n = n' then (s, "ok fs=") else (s, "bad-op")
+    | some (n, _, _), some n' => if n = n' then (s, "ok fs=[]") else (s, "bad-op")
     | _, _ => (s, "bad-op")
   | ["cend", name] =>
     -- the critical section of the commit in flight
